@@ -66,6 +66,14 @@ def envs() -> dict[str, Any]:
         from liquid2 import CachingDictLoader
 
         _ENVS["nscache"] = impl.make_env(limits=LIMITS, loader=CachingDictLoader(dict(PARTIALS), namespace_key="a"))
+        # real files: names that come from data reach the file system
+        from liquid2 import CachingFileSystemLoader
+
+        from mc import seams
+
+        root = seams.sandbox("verif_c02_")
+        seams.write_tree(root, PARTIALS)
+        _ENVS["fs"] = impl.make_env(limits=LIMITS, loader=CachingFileSystemLoader(root))
     return _ENVS
 
 
@@ -495,7 +503,7 @@ def plan(tier: str, seed: int):
     return shards, meta
 
 
-def _sources(res: ShardResult, srcs, env_names=("default", "shopify", "nscache"), datasets=None, budget: float = 3.0) -> None:
+def _sources(res: ShardResult, srcs, env_names=("default", "shopify", "nscache", "fs"), datasets=None, budget: float = 3.0) -> None:
     datasets = datasets or DATASETS[:2]
     for src in srcs:
         res.cases += 1
